@@ -208,6 +208,29 @@ def part_exit_status(fx):
                     C.violation("exit-status|zero-despite-failures|empty-token-in-list",
                                 "composition %s (1=good, 0=bad, 2=empty) via %s: exit status 0 although a supplied token fails" % ("".join(map(str, comp)), "stdin" if via else "argv"))
             C.nontrivial()
+    # options given after or between the tokens (the tools use getopt_long's argument permutation): the verdict is that of the same
+    # tokens with the options in front
+    for comp in ((1,), (0,), (1, 1), (1, 0), (0, 1), (1, 1, 1), (1, 0, 1)):
+        for where in ("last", "between", "split"):
+            if where == "between" and len(comp) < 2:
+                continue
+            if not C.case("jwt-verify with options %s the tokens, composition %s" % (where, "".join(map(str, comp)))):
+                continue
+            toks = [(good[i % len(good)] if g else bad[i % len(bad)]) for i, g in enumerate(comp)]
+            for spelling in (0, 1):
+                opts = spell(VER_OPTS["quiet"], spelling) + spell(VER_OPTS["key"], spelling, fx["oct_alg"], eq=bool(spelling))
+                if where == "last":
+                    argv = toks + opts
+                elif where == "between":
+                    argv = toks[:1] + opts + toks[1:]
+                else:
+                    argv = opts[:1] + toks + opts[1:]
+                rc, out, err = run([tool("jwt-verify")] + argv)
+                C.obs((rc == 0, all(comp)))
+                if (rc == 0) != all(comp):
+                    C.violation("exit-status|options-after-tokens|%s" % ("zero-despite-failures" if rc == 0 else "nonzero-despite-all-good"),
+                                "jwt-verify %s (1=good token): exit status %d" % (" ".join("<%d>" % comp[toks.index(a)] if a in toks else a for a in argv)[:200], rc))
+            C.nontrivial()
     # long tokens (longer than the tools' line buffer), valid and invalid, alone and between ordinary ones
     for size in ((9000, 70000) if C.tier == "thorough" else (9000,)):
         rc, out, err = run([tool("jwt-generate"), "-q", "-k", fx["oct_alg"], "-c", "s:pad=" + "p" * size])
